@@ -49,6 +49,7 @@ import time
 
 mon = sys.monitoring
 LINE = mon.events.LINE
+INSTRUCTION = mon.events.INSTRUCTION
 
 _BLOCKING = re.compile(r"\.acquire\(|\.wait\(|os\.read\(|^\s*with\s|\.join\(|\.recv\(|select\(")
 
@@ -171,13 +172,24 @@ class Engine:
     HANG = 1.5  # s: every unfinished worker blocked, nothing parked -> hang
     JOIN_CAP = 60.0
 
-    def __init__(self, funcs, name="vf.sched"):
+    def __init__(self, funcs, name="vf.sched", instr_funcs=()):
+        """instr_funcs: functions (a subset of funcs or not) that are additionally traced at
+        INSTRUCTION granularity: every bytecode of theirs is a preemption point (CPython may switch
+        threads inside a statement, e.g. after a call), so unlocked multi-step conditions written on
+        one source line are split too.  Their trace entries carry the negative instruction offset."""
         self.funcs = list(funcs)
         self.codes = []
         for f in self.funcs:
             while hasattr(f, "__wrapped__"):
                 f = f.__wrapped__
             self.codes.append(f.__code__)
+        self.icodes = []
+        for f in instr_funcs:
+            while hasattr(f, "__wrapped__"):
+                f = f.__wrapped__
+            self.icodes.append(f.__code__)
+            if f.__code__ not in self.codes:
+                self.codes.append(f.__code__)
         self.name = name
         self.tool = None
         self._by_ident = {}
@@ -204,8 +216,10 @@ class Engine:
         if self.tool is None:
             raise RuntimeError("no free sys.monitoring tool id")
         mon.register_callback(self.tool, LINE, self._on_line)
+        if self.icodes:
+            mon.register_callback(self.tool, INSTRUCTION, self._on_instr)
         for c in self.codes:
-            mon.set_local_events(self.tool, c, LINE)
+            mon.set_local_events(self.tool, c, LINE | INSTRUCTION if c in self.icodes else LINE)
         return self
 
     def __exit__(self, *a):
@@ -219,6 +233,8 @@ class Engine:
                 except Exception:
                     pass
             mon.register_callback(self.tool, LINE, None)
+            if self.icodes:
+                mon.register_callback(self.tool, INSTRUCTION, None)
             mon.free_tool_id(self.tool)
             self.tool = None
         return False
@@ -246,9 +262,12 @@ class Engine:
             self._blockline[key] = v
         return v
 
-    def _on_line(self, code, line):
+    def _on_instr(self, code, offset):
+        return self._on_line(code, -1 - offset, False)
+
+    def _on_line(self, code, line, probes=True):
         try:
-            if self._probes:
+            if probes and self._probes:
                 fns = self._probes.get((code, line))
                 if fns:
                     fr = sys._getframe(1)
@@ -261,7 +280,6 @@ class Engine:
             run = self._run
             k = w.n
             w.n = k + 1
-            w.last_blocking = self._is_blocking_line(code, line)
             w.last_t = time.monotonic()
             run.trace.append((w.role, code.co_qualname, line))
             if w.role == self._plan_role and k == self._plan_k:
